@@ -227,6 +227,11 @@ int64_t evaluate_incdec(
                 return static_cast<int64_t>(old_value);
             }
         } else if (var->type == TYPE_POINTER) {
+            // T* const : p++ / --p would re-seat the pointer
+            if (var->is_pointer_const) {
+                throw std::runtime_error(
+                    "Cannot reassign const pointer (T* const)");
+            }
             // ポインタ型のインクリメント/デクリメント
             int64_t old_ptr_value = var->value;
 
